@@ -19,7 +19,9 @@ VARIABLES l, bal, balV, grants
 vars == <<l, bal, balV, grants>>
 
 Ln == TheTrace[l]
+Pos(x) == IF x > 0 THEN x ELSE 0
 TxOf(e) == [signer |-> e.signer, fee |-> e.fee, sends |-> e.sends, sendsV |-> e.sendsV, maxdep |-> e.maxdep, run |-> e.run,
+            locked |-> Pos(e.post.vdep - e.pre.vdep) + Pos(e.post.mdep - e.pre.mdep),
             spends |-> e.spends, deleg |-> e.deleg, issues |-> e.issues, storV |-> e.storV, storM |-> e.storM]
 
 TraceInit ==
@@ -39,7 +41,7 @@ LineOK ==
 \* recorded post state, so that one run reports every offending transaction
 TTx ==
   /\ l <= Len(TheTrace) /\ Ln.act = "Tx"
-  /\ (LineOK \/ TLCSet(2, Append(TLCGet(2), l)))
+  /\ IF LineOK THEN TRUE ELSE TLCSet(2, Append(TLCGet(2), l))
   /\ bal' = Ln.post /\ balV' = Ln.postV
   /\ grants' = IF Ln.ok /\ Ln.deleg > 0 THEN grants \cup {"vault"} ELSE grants
   /\ l' = l + 1
